@@ -22,7 +22,8 @@ TECHNIQUE = ('Hypothesis-generated models/drivers/recorder placements/recording 
              '(model-based oracle) compared with the case reader; documented selection rules as reference; NumPy closed form '
              'and DOE points as absolute anchors')
 RULE = ("case = model spec (optional IndepVarComp, 2-4 closed-form explicit components, some inside group G, optional coupled pair "
-        "in group cyc under NonlinearBlockGS/Newton, objective component, units, promotions) x driver in {Driver, "
+        "in group cyc under NonlinearBlockGS/Newton, objective component, units, promotions, inputs connected / promoted with "
+        "src_indices, unconnected inputs promoted to one name under set_input_defaults with units of its own) x driver in {Driver, "
         "DOEDriver(ListGenerator 2-4 points), ScipyOptimizeDriver(SLSQP, maxiter 2-3)} x one SqliteRecorder attached to 1-4 of "
         "{problem, driver, any system, any group's nonlinear solver} x per-requester recording_options (record_* flags, "
         "includes/excludes built from real absolute/promoted/relative variable names with * and ?, or left at the defaults) x "
@@ -42,7 +43,9 @@ ASSUMPTIONS = [
     "/ record_constraints|record_responses; with record_outputs=False the repository's own tests expect no outputs at all, so then "
     "those are allowed but not required; sources of selected inputs are allowed-not-required extras in outputs (docs silent)",
     "descendants of a case = cases of the same run whose iteration stack extends the case's stack (recorded before it)",
-    "closed-form anchor: tolerance 1e-8*(1+|v|), only when the coupled pair's residual in the snapshot is below 1e-10",
+    "closed-form anchor: tolerance 1e-8*(1+|v|), only when the coupled pair's residual in the snapshot is below 1e-10; an input "
+    "equals the entries src_indices of its source converted from the source's units (for inputs promoted to one name: the units "
+    "given to set_input_defaults) to the input's units",
     "linear solvers, derivatives recording, discrete variables, MPI and solver scaling are not covered",
 ]
 BOUND = {'quick': '4 units x 150 cases', 'thorough': '16 units x 1250 cases'}
@@ -199,6 +202,7 @@ def classes_of(spec):
         cls.append('record-before-run')
     if any(o['op'] == 'recopts' for o in spec['ops']):
         cls.append('options-changed-between-runs')
+    cls += M.feature_classes(spec)
     return cls, len(levels) >= 2 and nd
 
 
@@ -468,13 +472,10 @@ def _anchor(spec, info, rinfo, log, res):
                 full = False
         if not full:
             continue
-        given = {}
-        for a in info.outputs:
-            if a.startswith('ivc.'):
-                given[a] = rinfo['out_off'].get(e['outputs'], a)
-        for i, o in info.conn.items():
-            if o.startswith('_auto_ivc.'):
-                given[i] = rinfo['in_off'].get(e['inputs'], i)
+        # independent values of the snapshot: IndepVarComp outputs, unconnected inputs, and for inputs promoted to one name under
+        # set_input_defaults their common _auto_ivc source (the reference derives every such input from it: entries src_indices,
+        # converted from the units of the defaults to the input's units)
+        given = M.given_from_snapshot(spec, info.conn, rinfo, e)
         ref = M.reference(spec, given)
         cy = spec['cycle']
         if cy:
